@@ -8,8 +8,9 @@ theorem intersect_eq_filter (A B : List Int) (hA : A.Pairwise (· < ·)) (hB : B
     intersect A B = (A.filter (fun x => B.contains x)).length := by
   fun_induction intersect A B with
   | case1 B => simp
-  | case2 A hne => simp [List.filter_eq_nil_iff]
-  | case3 a as bs ih =>
+  | case2 A hne =>
+    rw [List.filter_eq_nil_iff.mpr (by simp)]; rfl
+  | case3 as a bs ih =>
     have hA' := List.pairwise_cons.mp hA
     have hB' := List.pairwise_cons.mp hB
     rw [ih hA'.2 hB'.2]
@@ -36,12 +37,12 @@ theorem intersect_eq_filter (A B : List Int) (hA : A.Pairwise (· < ·)) (hB : B
     have hA' := List.pairwise_cons.mp hA
     rw [ih hA'.2 hB]
     have h2 : ¬ ((b :: bs).contains a = true) := by
-      simp only [List.contains_cons, Bool.or_eq_true, beq_iff_eq, List.contains_eq_mem,
-        decide_eq_true_eq, not_or]
-      refine ⟨hab, ?_⟩
+      simp only [List.contains_eq_mem, decide_eq_true_eq]
       intro h
-      have := (List.pairwise_cons.mp hB).1 a h
-      omega
+      rcases List.mem_cons.mp h with h | h
+      · exact hab h
+      · have := (List.pairwise_cons.mp hB).1 a h
+        omega
     rw [List.filter_cons_of_neg h2]
 
 theorem intersect_eq_zero_iff (A B : List Int) (hA : A.Pairwise (· < ·)) (hB : B.Pairwise (· < ·)) :
